@@ -157,6 +157,13 @@ def run(prog: Program, rep, tier: str) -> None:
                {"at_lower": "minimum", "at_upper": "maximum"}, "infeasibility-projection-signs", init_zero=False)
     active_set_masks(prog, rep)
     evaluations_not_corrupted(prog, rep)
+    from . import c10
+    for q in ("pygradflow.eval.Evaluator", "pygradflow.eval.SimpleEvaluator", "pygradflow.eval.ValidatingEvaluator"):
+        ci = prog.cls(q)
+        bad = c10.class_is_immutable_after_init(prog, ci, {"num_evals": "counter"})
+        rep.check(not bad, "formula-pure", bad[0][0].qualname if bad else ci.qualname, U(bad[0][1])[:60] if bad else ci.name,
+                  f"{ci.name} keeps no state besides its evaluation counter (a memo that ignores an argument would hand back a stale function value)",
+                  bad[0][0].loc(bad[0][1]) if bad else "")
     implicit_funcs(prog, rep)
     projection_shape(prog, rep)
     rep.pin("closed-form formulas compared", n + rep.extra.get("implicit_formulas", 0), 17)
